@@ -189,16 +189,19 @@ func (pq *KeyGroupPriorityQueue) loadFromDB() {
 	prefix[2] = 0x01 // Schema byte
 
 	var err error
+	loadedAll := true
 	for entry := range pq.db.ScanPrefix(prefix, &err) {
 		pq.cache.Push(entry.Key())
 		if pq.cache.IsFull() {
+			// Stopped early: later timers are still only in the DB.
+			loadedAll = false
 			break
 		}
 	}
 	if err != nil {
 		panic(err)
 	}
-	pq.allDataInCache = true
+	pq.allDataInCache = loadedAll
 }
 
 var _ ds.QueuePartition[[]byte] = &KeyGroupPriorityQueue{}
